@@ -17,14 +17,11 @@ mod cfault;
 mod cabort;
 mod ccrash;
 mod cmodel;
-mod dbexec;
-mod dbmodel;
-mod dbprog;
-mod common;
 mod registry;
 mod sexec;
-mod simfs;
 mod sprog;
+
+use dbsim::{common, dbexec, dbmodel, dbprog, simfs};
 
 #[global_allocator]
 static ALLOC: common::CapAlloc = common::CapAlloc;
